@@ -225,4 +225,4 @@ def run(ctx):
     ctx.run_parallel('shard_exhaustive')
     ctx.exhaustive('7 nesting shapes × 7 placements × N ≤ %d × width ≤ %d × %d numbering forms; maxRepeat 1..30 × %d scripts' % (
         12 if ctx.thorough else 6, 4 if ctx.thorough else 3, 14 if ctx.thorough else 10, len(MR_SCRIPTS)))
-    ctx.run_parallel('shard_random', extra=(ctx.pick(300, 12000),))
+    ctx.run_parallel('shard_random', extra=(ctx.pick(300, 4000),))
